@@ -9,6 +9,7 @@ package gohlslib
 // to Part.Marshal is what a client decodes from the bytes that were written.
 
 import (
+	"bytes"
 	"io"
 	"time"
 
@@ -341,7 +342,18 @@ func verifStub_SPSFPS(s h264.SPS) float64                  { return 30 }
 
 // ---- parameter-set parsers used by codecparams.Marshal for H265 / AV1 (C09 lemma): accepted, zero fields ----
 
-func verifStub_H265SPSUnmarshal(s *h265.SPS, buf []byte) error         { return nil }
+// the fields RESOLUTION depends on, for the two harness vectors (1280x720 without cropping; 1920x1088 coded, cropped to
+// 1080 by the conformance window), so that the real Width() / Height() run on them symbolically too
+func verifStub_H265SPSUnmarshal(s *h265.SPS, buf []byte) error {
+	switch {
+	case bytes.Equal(buf, verifH265SPS):
+		s.ChromaFormatIdc, s.PicWidthInLumaSamples, s.PicHeightInLumaSamples = 1, 1280, 720
+	case bytes.Equal(buf, verifH265SPS2):
+		s.ChromaFormatIdc, s.PicWidthInLumaSamples, s.PicHeightInLumaSamples = 1, 1920, 1088
+		s.ConformanceWindow = &h265.SPS_Window{BottomOffset: 4}
+	}
+	return nil
+}
 // verifAV1Fields: when set (lemma.codecs.av1), the symbolic parse result of the next sequence header
 var verifAV1Fields *av1.SequenceHeader
 
